@@ -10,12 +10,13 @@ import vlib
 WK = {("set", "invalidate"): "WK_two", ("set",): "WK_set", ("invalidate",): "WK_inv", ("evict",): "WK_ev"}
 
 
-def lr_cfg(getters, refreshers, writers, wk, live, preload=False, expected="live", stale_cancels=False, window=True, reg_locked=True):
+def lr_cfg(getters, refreshers, writers, wk, live, preload=False, expected="live", stale_cancels=False, window=True, reg_locked=True, fail_clears="own",
+           outcomes='"val", "err", "nf", "panic"'):
     return ("SPECIFICATION Spec\nCONSTANTS\n Getters = {%s}\n Refreshers = {%s}\n Writers = {%s}\n WriterKind <- %s\n"
-            " Outcomes = {\"val\", \"err\", \"nf\", \"panic\"}\n Preload = %s\n Expected = %s\n StaleCancels = %s\n RegLocked = %s\n"
+            " Outcomes = {%s}\n Preload = %s\n Expected = %s\n StaleCancels = %s\n RegLocked = %s\n FailClears = \"%s\"\n"
             "INVARIANTS NoOverlap CleanTable Returned JoinersShare NoStaleInstall NoDrop LockFree%s\n%s" %
-            (", ".join(map(str, getters)), ", ".join(map(str, refreshers)), ", ".join(map(str, writers)), wk,
-             "TRUE" if preload else "FALSE", '"%s"' % expected, "TRUE" if stale_cancels else "FALSE", "TRUE" if reg_locked else "FALSE",
+            (", ".join(map(str, getters)), ", ".join(map(str, refreshers)), ", ".join(map(str, writers)), wk, outcomes,
+             "TRUE" if preload else "FALSE", '"%s"' % expected, "TRUE" if stale_cancels else "FALSE", "TRUE" if reg_locked else "FALSE", fail_clears,
              " NoWindowInstall" if window else "",
              "PROPERTIES Terminates\n" if live else ""))
 
@@ -182,7 +183,16 @@ def scenarios(prop, quick, seed):
             # a computation that cancels itself is not a write: it must not disturb the flight (no second loader run, value cached)
             sc.update(getters=2 + j % 2, bulk=0, refreshers=0, refresh=0, preload=0, outcomes=["val"], writers=[["computecancel"], ["computecancel", "computecancel"]][(j // 16) % 2],
                       policy=sc["policy"].split("+")[0] + "+inflight")
-        if fam == 2 and refresh and (j // 8) % 2:
+        if fam == 2 and (j // 8) % 4 == 1 and prop == "C08":
+            # the counterexample TLC finds on LoadRace.tla with FailClears = "any" (a failed load removes whatever record is registered):
+            # load 1 is in flight and has failed, the key is invalidated, load 2 registers, load 1 completes, a third caller arrives
+            sc.update(getters=3, bulk=0, refreshers=0, refresh=0, preload=0, outcomes=["val"], outseq=["err", "val", "val"], writers=["invalidate"], policy="script",
+                      # (the second and third caller are called after the invalidation has returned, so that nothing excuses the overlap)
+                      script=[{"g": "g1", "at": "start"}, {"g": "g1", "at": "get.afterLookup"}, {"g": "g1", "at": "ld.enter"}, {"g": "g1", "at": "ld.exit"},
+                              {"g": "w1", "at": "start"}, {"g": "w1", "at": "inv.afterCompute"}, {"g": "g2", "at": "start"}, {"g": "g2", "at": "get.afterLookup"},
+                              {"g": "g1", "at": "ld.beforeInstall"}, {"g": "g3", "at": "start"}, {"g": "g3", "at": "get.afterLookup"},
+                              {"g": "g2", "at": "ld.enter"}, {"g": "g3", "at": "ld.enter"}])
+        if fam == 2 and refresh and (j // 8) % 2 and sc["policy"] != "script":
             sc.update(bulkref=1 + (j // 16) % 2)
         if fam == 4 and (j // 8) % 4 == 0 and prop == "C09":
             # F17 (fixed by 1a4f8c2; kept as a regression): the schedule TLC found on LoadRace.tla (NoWindowInstall) - a reload registered while an
@@ -192,7 +202,15 @@ def scenarios(prop, quick, seed):
                       script=[{"g": "w1", "at": "start"}, {"g": "r1", "at": "start"}, {"g": "xr1", "at": "start"},
                               {"g": "xr1", "at": "ld.enter"}, {"g": "xr1", "at": "ld.exit"}, {"g": "xr1", "at": "ld.beforeInstall"},
                               {"g": "w1", "at": "h.atomic"}])
-        elif sc["writers"] and "+" not in sc["policy"]:
+            if (j // 32) % 2 == 1:
+                # the same window for the other place that registers reloads: BulkRefresh (key 2 is loaded first, then key 1 reloaded)
+                x = "xq1"
+                sc.update(refreshers=0, bulkref=1,
+                          script=[{"g": "w1", "at": "start"}, {"g": "q1", "at": "start"}, {"g": x, "at": "start"},
+                                  {"g": x, "at": "ld.enter"}, {"g": x, "at": "ld.exit"}, {"g": x, "at": "ld.beforeInstall"}, {"g": x, "at": "ld.afterInstall"},
+                                  {"g": x, "at": "ld.enter"}, {"g": x, "at": "ld.exit"}, {"g": x, "at": "ld.beforeInstall"},
+                                  {"g": "w1", "at": "h.atomic"}])
+        elif sc["writers"] and "+" not in sc["policy"] and sc["policy"] != "script":
             # half of the racing scenarios are biased towards the two windows the properties name
             sc["policy"] += ["", "+inflight", "+atinstall", "+inflight"][(j // 8) % 4]
         out.append(sc)
@@ -219,7 +237,9 @@ def run(prop, tier, replay=None, collect_only=False):
             # the switches set the old way must violate (otherwise the invariants are vacuous): F14, F17, F16
             neg = [("neg_F14", lr_cfg([1], [], [11], "WK_set", False, expected="none", reg_locked=False), "NoWindowInstall"),
                    ("neg_F17", lr_cfg([1], [3], [11], "WK_inv", False, preload=True, reg_locked=False), "NoWindowInstall"),
-                   ("neg_F16", lr_cfg([1], [], [11], "WK_stale", False, stale_cancels=True), "NoDrop")]
+                   ("neg_F16", lr_cfg([1], [], [11], "WK_stale", False, stale_cancels=True), "NoDrop"),
+                   ("neg_failclears", lr_cfg([1, 2, 3], [], [11], "WK_inv", False, fail_clears="any", outcomes='"val", "err"')
+                    .replace("INVARIANTS NoOverlap CleanTable Returned JoinersShare NoStaleInstall NoDrop LockFree NoWindowInstall", "INVARIANTS NoOverlap"), "NoOverlap")]
             if prop == "C11":
                 inst = [("g1r2w1", lr_cfg([1], [3, 4], [11], "WK_set", True, preload=True))]
                 neg = []
